@@ -513,7 +513,7 @@ class PackAllLooseQuick(PackAllLoose):
     variants = 'bool'
     tier = 'quick'
     profiles = None
-    props = ('C05', 'C06')          # every-change runs: only under the two crash properties (cost: ~9 minutes on 14 cores)
+    props = ('C05', 'C06')          # every-change runs: only under the two crash properties (cost: ~8 minutes on 14 cores)
     verify_only = True
 
 
